@@ -12,6 +12,7 @@ mod ops_curve;
 mod ops_extra;
 mod ops_hash;
 mod ops_json;
+mod ops_scan;
 mod ops_txid;
 
 pub fn unhex(s: &str) -> Option<Vec<u8>> {
@@ -55,6 +56,9 @@ fn run_line(line: &str) -> String {
         return r;
     }
     if let Some(r) = ops_json::run(op, &args) {
+        return r;
+    }
+    if let Some(r) = ops_scan::run(op, &args) {
         return r;
     }
     if let Some(r) = ops_txid::run(op, &args) {
